@@ -19,7 +19,7 @@ from pyvc.spec import Contract
 
 CONTRACTS = []
 TREE = ["Tree", "TreeSet"]
-NODE_PROPS = []        # ["C03", "C01", "C15"] once the proof is complete
+NODE_PROPS = ["C03", "C04"]
 
 
 def C(*a, **k):
@@ -40,7 +40,7 @@ def wf(pre=""):
     """The structural invariant of a non-empty interior node, clause by clause."""
     return {
         "kids": "forall(0, " + N + ", lambda i: " + c("i") + " is not None and " + c("i") + " is not self and "
-                "cls_id(" + c("i") + ") == cls_id(" + c(0) + ") and nsize(" + c("i") + ") != 0)",
+                "cls_id(" + c("i") + ") == cls_id(" + c(0) + ") and nsize(" + c("i") + ") != 0 and fst(" + c("i") + ") is not None)",
         "kind": "cls_id(" + c(0) + ") == cls_id(self) or cls_id(" + c(0) + ") == bucket_cls_of(self)",
         "distinct": "forall(0, " + N + ", lambda i, j: implies(i < j, " + c("i") + " is not " + c("j") + " and self._data[i] is not self._data[j]))",
         "first": "self._firstbucket is fst(" + c(0) + ")",
@@ -96,7 +96,7 @@ C("_Tree._deleteNextBucket#struct", cls=TREE, params={}, returns="none",
   ensures=dict({"wf_" + k: v for k, v in WF.items()},
                same_children="len(self._data) == old(len(self._data)) and self._data is old(self._data) and "
                              "forall(0, " + N + ", lambda i: " + c("i") + " is old(" + c("i") + "))",
-               first_same="fst(self) is old(fst(self)) and self._firstbucket is old(self._firstbucket)",
+               first_same="fst(self) is old(fst(self)) and self._firstbucket is old(self._firstbucket) and fst(self) is not None",
                unlinked="succ(self) is (old(succ(self))._next if old(succ(self)) is not None else None)",
                subtree_ok="wfsub(self)"),
   modifies=NODE_MOD, ghost={"of": "_Tree._deleteNextBucket", "derive": DERIVE, "no_frame": True, "no_compare": True},
@@ -106,7 +106,7 @@ FIRST_MOVED = "(result[0] and " + N + " > 0)"
 C("_Tree._del#struct", cls=TREE, params={"key": "K"}, returns=DEL_RET,
   requires=dict(REQ),
   ensures=dict({"wf_" + k: "implies(" + N + " > 0, " + v + ")" for k, v in WF.items()},
-               first_bucket_is_first_leaf="implies(" + N + " > 0, self._firstbucket is fst(self))",
+               first_bucket_is_first_leaf="implies(" + N + " > 0, self._firstbucket is fst(self) and fst(self) is not None)",
                # the emptied first leaf L went away: the subtree now starts at L's successor, and L keeps its own link
                first_moves="implies(" + FIRST_MOVED + ", fst(self) is old(fst(self))._next and "
                            "old(fst(self))._next is old(old(fst(self))._next))",
@@ -128,7 +128,7 @@ C("_Tree._del#struct", cls=TREE, params={"key": "K"}, returns=DEL_RET,
                                         "forall(0, " + N + ", lambda i: " + c("i") + " is old(" + c("i") + "))"}},
   modifies=NODE_MOD,
   ghost={"of": "_Tree._del", "derive": DERIVE, "no_frame": True, "raise_modifies": True, "prune_dispatch": True,
-         "chain_post": True,
+         "chain_post": True, "heavy": True,
          "uses": {"*:raises-only*": ["post:_Tree._search#struct:*", "post:*size:*", "unfold:*", "req:*"],
                   "*:post:subtree_ok": ["newpost:wf_*"]}},
   props=NODE_PROPS)
